@@ -85,7 +85,7 @@ theorem listed_of_sim {m : State} {s : SState} {K : MStack} {fid idx : Nat} {eg 
       · simp only [hea, if_false] at hs
         cases hs
 
-theorem monitoredOK : SimOK monitored Spec.machine Sim (fun _ => True) where
+theorem monitoredOK : SimOK monitored Spec.machine Sim where
   aliveE := simOK.aliveE
   aliveL := simOK.aliveL
   connect := simOK.connect
@@ -116,27 +116,27 @@ theorem monitoredOK : SimOK monitored Spec.machine Sim (fun _ => True) where
 def SimM (m m' : State) (K : Stack Nat Nat Nat Nat) : Prop :=
   m = m' ∧ (∀ k ∈ K, k.1 = k.2) ∧ ∃ (s : SState) (Ks : MStack), Sim m s Ks ∧ Ks.map (·.1) = K.map (·.1)
 
-theorem monitor_transparent_sim : SimOK monitored machine SimM (fun _ => True) where
+theorem monitor_transparent_sim : SimOK monitored machine SimM where
   aliveE := by intro m m' K e h; obtain ⟨rfl, _⟩ := h; rfl
   aliveL := by intro m m' K l h; obtain ⟨rfl, _⟩ := h; rfl
   connect := by
-    intro m m' K e g l x _ h he hl
+    intro m m' K e g l x h he hl
     obtain ⟨rfl, hK, s, Ks, hs, hm⟩ := h
     exact ⟨rfl, hK, _, Ks, sim_connect e g l x hs he hl, hm⟩
   disconnect := by
-    intro m m' K e g l x _ h he hl
+    intro m m' K e g l x h he hl
     obtain ⟨rfl, hK, s, Ks, hs, hm⟩ := h
     exact ⟨rfl, hK, _, Ks, sim_disconnect e g l x hs he hl, hm⟩
   delL := by
-    intro m m' K l _ h hl
+    intro m m' K l h hl
     obtain ⟨rfl, hK, s, Ks, hs, hm⟩ := h
     exact ⟨rfl, hK, _, Ks, sim_delL l hs hl, hm⟩
   delE := by
-    intro m m' K e _ h he
+    intro m m' K e h he
     obtain ⟨rfl, hK, s, Ks, hs, hm⟩ := h
     exact ⟨rfl, hK, _, Ks, sim_delE e hs he, hm⟩
   begin := by
-    intro m m' K e g _ h he
+    intro m m' K e g h he
     obtain ⟨rfl, hK, s, Ks, hs, hm⟩ := h
     have hb := sim_begin e g hs he
     show BeginRel machine SimM K (actBegin e g m) (actBegin e g m)
@@ -210,13 +210,13 @@ theorem runOps_relM (P : Prog) (fuel : Nat) (ops : List Action) {r₁ r₂ : Run
   induction ops generalizing r₁ r₂ with
   | nil => exact h
   | cons a as ih =>
-    exact ih ((exec_sim monitor_transparent_sim P (fun _ _ _ _ _ => trivial) fuel).1 [] [a] r₁ r₂ (fun _ _ => trivial) h)
+    exact ih ((exec_sim monitor_transparent_sim P fuel).1 [] [a] r₁ r₂ h)
 
 theorem runOps_relMon (P : Prog) (fuel : Nat) (ops : List Action) {r₁ : Run State} {r₂ : Run SState}
     (h : RunRel Sim [] r₁ r₂) : RunRel Sim [] (runOps monitored P fuel r₁ ops) (runOps Spec.machine P fuel r₂ ops) := by
   induction ops generalizing r₁ r₂ with
   | nil => exact h
   | cons a as ih =>
-    exact ih ((exec_sim monitoredOK P (fun _ _ _ _ _ => trivial) fuel).1 [] [a] r₁ r₂ (fun _ _ => trivial) h)
+    exact ih ((exec_sim monitoredOK P fuel).1 [] [a] r₁ r₂ h)
 
 end Nstd.Callback
